@@ -116,24 +116,39 @@ prop('C11', title='A compiled trust schema matches exactly the names its source 
      level_text='Deciding check (bounded): Checker.match on compile_lvs(text), directly and after load(save()), equals an independent '
                 'reference semantics evaluated on the generator\'s abstract schema, for generated schemas x all names up to length 4.',
      level_note='A proof of the three-pass compiler for all programs is outside what contracts on these functions can express '
-                '(DESIGN.md 6/C11); deductive fragments (_check_cons, the match cut obligations) are listed in evidence when built.',
+                '(DESIGN.md 6/C11). Deductive fragment (unbounded, pyvc/z3): Checker._check_cons for any number of constraints and '
+                'options - True iff every constraint has a satisfied option.',
      technique=T_BOUNDED)
 prop('C12', title='The signing check holds exactly when the schema lets that key sign that packet', level='exploration',
      bounded=[('bounded.c12', 'run', SH)],
      level_text='Deciding check (bounded): Checker.check equals the reference signing relation on generated schemas with signing '
                 'chains / alternatives / shared patterns, for all name pairs up to length 3 (+ matching length-4 names).',
-     level_note='Completeness of the backtracking search is only explored, not proved.', technique=T_BOUNDED)
+     level_note='Deductive fragments (unbounded, pyvc/z3): Checker.check for any number of matches - True iff some packet match and some '
+                'key match UNDER THAT MATCH\'S BINDINGS reach nodes p, k with k in sign_cons(p), trailing implicit digests (and only those) '
+                'dropped - against an assumed interface of the matcher; _check_cons. Completeness of the backtracking matcher itself '
+                'is only explored, not proved.', technique=T_BOUNDED)
 prop('C13', title='Ill-formed schemas and models are rejected; accepted models always terminate', level='fault_enumeration',
      bounded=[('bounded.c13', 'run', SH)],
      level_text='Deciding check (bounded): one injected static error of each documented kind at every position of generated schemas must '
                 'raise the documented error; every single-field corruption of compiled models is rejected or yields a model on which '
                 'match/check terminate within a step budget.',
-     level_note='Termination is checked with a step budget (10^5 traced lines), not proved.', technique=T_BOUNDED)
+     level_note='Deductive fragments (unbounded, pyvc/z3): the loader\'s recursive dfs (nested-function contract, loop invariants over '
+                'any number of edges / constraint sets / options / signers): normal return only if every documented node, edge, option '
+                'and signer rule holds at the node and - through the recursive calls - below it, LvsModelError otherwise; '
+                '_sanity_check: version, start node, whole tree from the root, cycle check over all nodes. The compiler and '
+                'termination are bounded only (step budget 10^5 traced lines).', technique=T_BOUNDED)
 prop('C14', title='The schema validator accepts exactly packets with a valid chain to the anchor', level='fault_enumeration',
      bounded=[('bounded.c14', 'run', SH)],
      level_text='Deciding check (bounded): generated PKIs (depth 1..4, EC + RSA) x every single deviation at every link, with real crypto and '
                 'an in-process certificate face; constructor refusal; verdict independence over all orders of two instances x three packets.',
-     level_note='Signature schemes and Interest/Data retrieval are assumed; hierarchies are small and generated.', technique=T_BOUNDED)
+     level_note='Deductive fragments (unbounded, pyvc/z3) with signature schemes and certificate retrieval as assumed interfaces: '
+                'CascadeChecker._verify_sig (truthy only for RSA/ECDSA with the verifier\'s own verdict on these key bits; HMAC and '
+                'unknown types refused), CascadeChecker.validate (True only if a key locator is present and the signature verifies under '
+                'the anchor key / a cached key / a certificate fetched with validator = next level; Nack, timeout, validation failure '
+                'and empty content refuse), __init__ (self-signature of the anchor, per-instance cache), union_checker (conjunction, '
+                'order, short-circuit) and lvs_validator (sanity conditions, schema check AND cascade, cascade re-validates fetched '
+                'certificates with the union). The induction over chain length is not proved: hierarchies are small and generated.',
+     technique=T_BOUNDED)
 prop('C16', title='Issued certificates are well-formed, correctly named and verifiable', level='exploration',
      bounded=[('bounded.c16', 'run', SH)],
      level_text='Deciding check (bounded): self_sign / sign_req / derive_cert / new_cert over EC/RSA/Ed25519 subject x issuer, many ECDSA '
@@ -147,7 +162,11 @@ prop('C15', title='Keychain contents, defaults and signers stay consistent over 
                 'private-key files and signer correctness as run-time contracts after every operation on a real KeychainSqlite3 + TpmFile, '
                 'over operation histories up to a stated length, close/reopen, and one injected storage failure at every step.',
      level_note='SQL trigger semantics live in SQL text executed by SQLite: no contract on the Python functions can express them '
-                '(DESIGN.md 6/C15); get_signer resolution is the only deductive fragment planned.',
+                '(DESIGN.md 6/C15). Deductive fragments (unbounded, pyvc/z3, database / TPM as assumed ghost interfaces): get_signer for '
+                'every combination of arguments (selection cert > key > identity > default, key locator, TPM signer for exactly that '
+                'pair, cache keyed by the pair); del_key / del_cert / new_key / import_cert / touch_identity with a failure of any '
+                'exception class injected at every database and TPM step: nothing uncommitted is left behind, failures are rolled back, '
+                'an orphan private key is removed, the signer cache is emptied before any deletion.',
      technique=T_BOUNDED)
 prop('C17', title='Prefix registration speaks the forwarder management protocol correctly', level='proof',
      bounded=[('bounded.c17', 'run', SH)],
@@ -175,9 +194,14 @@ prop('C19', title='Segmented fetch yields every segment once, in order, tolerati
      level_note='Assumed (property C03): express_interest returns Data matching the Interest or raises. Simulated producers with '
                 'loss patterns are the bounded stand-in.',
      technique=T_MIXED)
-prop('C20', title='Client configuration resolves with environment over file over platform default', level='exploration',
+prop('C20', title='Client configuration resolves with environment over file over platform default', level='proof',
      bounded=[('bounded.c20', 'run', SH)],
-     level_text='Deciding check (bounded): real directory trees with HOME / environment redirected: all combinations of the three '
-                'environment variables x candidate files x key subsets x location kinds x default-directory existence; 225 transport URIs.',
-     level_note='os.path, ConfigParser and urlparse are the real ones; a deductive contract over an abstract file system is planned.',
-     technique=T_BOUNDED)
+     level_text='Unbounded proof over opaque text values and a ghost file system / environment (every combination of presence, every '
+                'value): read_client_conf takes each setting from NDN_CLIENT_* else the first existing client.conf else the platform '
+                'default and opens only that file; resolve_location (nested-function contract) keeps an existing location, resolves a '
+                'missing one against the configuration directory, else the first existing platform default, else the first default; '
+                'default_face maps unix / tcp* / udp* to the face type, host and port (6363 when absent or 0) and refuses every other '
+                'scheme; default_keychain builds the sqlite/file pair at the given locations and refuses unknown schemes. Linux platform.',
+     level_note='ASSUMED interfaces: os.path.exists / expandvars / expanduser / join / dirname, ConfigParser, open, urlparse, os.environ. '
+                'The bounded stand-in runs the same clauses against the real ones on real directory trees (225 URIs).',
+     technique=T_MIXED)
